@@ -151,3 +151,38 @@ Definition step_respects_heap_iso_stmt (step : vm -> out (vm * bool))
            (iso : (N -> N) -> vm -> vm -> Prop) : Prop :=
   forall f v1 v2 v1' halt, iso f v1 v2 -> step v1 = Ok (v1', halt) ->
     exists f' v2', step v2 = Ok (v2', halt) /\ iso f' v1' v2'.
+
+(* ---- roots_complete, first concrete instance (Proofs/RootsProofs.v): a variable
+   reference or assignment of the machine of Model/Vm.v (load_lex_slot / store_lex_slot,
+   run.rs:394-401 and 424-437).  [lex_derefs k v] = the addresses the access hands to
+   Heap::get: %ep and, when slot k of the current environment is a pointer, the
+   environment it leads to.  (1) they are reachable from the roots run_gc marks — this IS
+   [roots_complete_stmt] for that dereference trace, whatever the step function;
+   (2) the trace is complete: the access depends on the heap only through those cells.
+   Qualified names: EnvProofs has its own example machine. *)
+From MW Require Model.VmBase Model.Vm Proofs.ScopeProofs Proofs.EnvProofs Proofs.RootsProofs.
+
+Theorem C03_roots_complete_lex_access : forall step k,
+  roots_complete_stmt step (RootsProofs.lex_derefs k).
+Proof. intros step k v a. exact (RootsProofs.lex_derefs_reachable k v a). Qed.
+Print Assumptions C03_roots_complete_lex_access.
+
+Theorem C03_lex_load_depends_on_derefs : forall k s s2 v,
+  st s2 = st s -> ep s2 = ep s -> hlen (hp s2) = hlen (hp s) ->
+  (forall a, In a (RootsProofs.lex_derefs k s) -> cell_at (hp s2) a = cell_at (hp s) a) ->
+  Vm.load_lex_slot k s = VmBase.ROk v s -> Vm.load_lex_slot k s2 = VmBase.ROk v s2.
+Proof. exact RootsProofs.load_depends_on_derefs. Qed.
+Print Assumptions C03_lex_load_depends_on_derefs.
+
+Theorem C03_lex_store_depends_on_derefs : forall k v s s2 u s',
+  st s2 = st s -> ep s2 = ep s -> hlen (hp s2) = hlen (hp s) ->
+  (forall a, In a (RootsProofs.lex_derefs k s) -> cell_at (hp s2) a = cell_at (hp s) a) ->
+  Vm.store_lex_slot k v s = VmBase.ROk u s' ->
+  exists s2', Vm.store_lex_slot k v s2 = VmBase.ROk tt s2' /\ st s2' = st s' /\ hp s2' = hp s2.
+Proof. exact RootsProofs.store_depends_on_derefs. Qed.
+Print Assumptions C03_lex_store_depends_on_derefs.
+
+Example C03_example_lex_access :
+  RootsProofs.lex_derefs 1 EnvProofs.ex_s1 = [3; 1] /\
+  Vm.load_lex_slot 1 EnvProofs.ex_s1 = VmBase.ROk (VBool true) EnvProofs.ex_s1.
+Proof. exact RootsProofs.ex_lex_derefs. Qed.
